@@ -44,8 +44,8 @@ def main() -> None:
         })
     m = {
         "version": 1,
-        "setup_cmd": "cd lean && lake build Model Gen Proofs Props " + " ".join(
-            f"drv_{c['property_id'].lower()}" for c in checks),
+        "setup_cmd": "cd lean && lake build " + " ".join(
+            f"Props.{c['property_id']} drv_{c['property_id'].lower()}" for c in checks),
         "hooks": {"guard": "MOPTIPYAPPS_VERIF",
                   "enable": "no hooks are installed: checks drive the public API and the module-level kernels of /repo "
                             "from outside (numba env vars NUMBA_CACHE_DIR/NUMBA_BOUNDSCHECK only)",
